@@ -172,8 +172,11 @@ func c08r3(r *R) {
 			if strings.HasPrefix(n, "(net/http.ResponseWriter).") {
 				o2.AtI(i)
 				if n == nWriteHeader {
-					code, _ := constInt(callArgs(cc)[1])
-					o2.Check(code == 502 || code == 504, "error handler answers %d", code)
+					// the status is 502 or 504 on every path (a constant, or a choice between constants)
+					for _, lf := range leaves(callArgs(cc)[1], false) {
+						code, isC := constInt(lf)
+						o2.Check(isC && (code == 502 || code == 504), "error handler answers %s", c.Expr(lf))
+					}
 				} else {
 					o2.Fail("error handler calls %s", n)
 				}
@@ -206,7 +209,7 @@ func c08r4(r *R) {
 	o := r.Ob("C08.R4", "stream-delegates:HijackClientHelloConn.Read").At(rd.Pos())
 	eachInstr(rd, func(i ssa.Instruction) {
 		if ret, ok := i.(*ssa.Return); ok {
-			o.Check(c.Expr(ret.Results[0]) == nInnerRead+"#0" && c.Expr(ret.Results[1]) == nInnerRead+"#1", "Read returns (%s, %s)", c.Expr(ret.Results[0]), c.Expr(ret.Results[1]))
+			o.Check(c.Expr(ret.Results[0]) == nInnerRead+"#0" && c.exprKnown(ret.Results[1], i.Block()) == nInnerRead+"#1", "Read returns (%s, %s)", c.Expr(ret.Results[0]), c.Expr(ret.Results[1]))
 		}
 	})
 }
